@@ -45,7 +45,9 @@ def acct (impl : String) : P Verdict := do
       dropped := 0, wdropped := fun _ => 0, pendD := 0, pendX := 0, pendW := fun _ => 0,
       outcomes := outcomes, werrs := fun _ => 0 }
   let attemptCounted := kind != "tcp"
-  let errCounts := kind == "http"
+  -- no pool counts a worker's processing error as a drop (HTTP did until
+  -- fixes/C18-http-worker-error-not-a-drop.patch; `Pool.httpPool.errCountsWorkerDropped = false`)
+  let errCounts := (Huginn.Pool.httpPool (Pkt := Nat) n q (fun _ => 0)).errCountsWorkerDropped
   let d := nQueued st + (if attemptCounted then nFull st else 0)
   let x := nFull st + nUnroutable st
   -- processing errors per worker: queued non-TCP frames (only generated for the HTTP pool)
@@ -56,9 +58,12 @@ def acct (impl : String) : P Verdict := do
   let flows := ((ocs.filter (fun o => o.cls != 2)).map (·.flow)).eraseDups
   let r := (flows.filter (flowYields two ocs)).length
   let render (ws : List Nat) := s!"d={d} x={x} w={",".intercalate (ws.map toString)} r={r}"
-  let kf := if wModel != wSpec then ["KF.C18.httpWorkerErrCountedDropped"] else []
-  let tag := s!"acct:{kind}:q{q}:t{if threads == 1 then "1" else "n"}:{if nFull st == 0 then "nodrop" else "drops"}"
-  pure (verdictOf impl (render wModel) (some (render wSpec)) kf tag)
+  -- `:werr`: some worker analysed a queued frame that fails analysis (regression of the former finding
+  -- KF.C18.httpWorkerErrCountedDropped: such a frame must not show in that worker's `dropped`)
+  let anyErr := (List.range n).any fun w => errsAt w != 0
+  let tag := s!"acct:{kind}:q{q}:t{if threads == 1 then "1" else "n"}:{if nFull st == 0 then "nodrop" else "drops"}" ++
+    (if anyErr then ":werr" else "")
+  pure (verdictOf impl (render wModel) (some (render wSpec)) [] tag)
 
 def handlers : List (String × (String → P Verdict)) :=
   [("C10.pool", pool), ("C18.acct", acct)]
